@@ -9,8 +9,9 @@ Definition reachable (s : tstate) : Prop := exists tr, run init tr = Some s.
 (* ---------- counting worker phases ---------- *)
 Definition cnt (f : wphase -> bool) (l : list wphase) : nat := length (filter f l).
 Definition is_ready p := match p with WSpawned | WLoop => true | _ => false end.
-Definition is_gotdone p := match p with WGot XDone => true | _ => false end.
-Definition is_gotother p := match p with WGot XErr | WGot XPend => true | _ => false end.
+(* is_gotdone: execute() returned `true` (Ready(Ok) or, since baf9ea120, Ready(Err)) *)
+Definition is_gotdone p := match p with WGot XDone | WGot XErr => true | _ => false end.
+Definition is_gotother p := match p with WGot XPend => true | _ => false end.
 
 Ltac sf := cbn [running pending completed canceled workers pipe_done owed cancel_reports errored
                 execs_after_err execs_after_done].
@@ -75,7 +76,8 @@ Record Inv (s : tstate) : Prop := {
   iA6 : owed s = true -> completed s = true \/ pending s = true \/ 1 <= cnt is_ready (workers s);
   iA7 : execs_after_done s = 0;
   iA8 : pipe_done s = true -> completed s = true \/ 1 <= cnt is_gotdone (workers s);
-  iA9 : errored s = false -> execs_after_err s = 0
+  iA9 : execs_after_err s = 0;
+  iA10 : errored s = true -> completed s = true \/ 1 <= cnt is_gotdone (workers s)
 }.
 
 Lemma inv_init : Inv init.
@@ -91,7 +93,7 @@ Ltac counts Hn newp :=
 
 Lemma inv_step s e s' : Inv s -> step s e = Some s' -> Inv s'.
 Proof.
-  intros I0 Hs. pose proof I0 as [A1 A2 A3 A4 A5 A6 A7 A8 A9].
+  intros I0 Hs. pose proof I0 as [A1 A2 A3 A4 A5 A6 A7 A8 A9 A10].
   pose proof (cnt_alive_split (workers s)) as SP.
   destruct e as [| | w | w r | w]; cbn [step] in Hs.
   - (* wake *)
@@ -108,8 +110,8 @@ Proof.
     unfold do_begin in Hs. destruct (nth_error (workers s) w) as [p|] eqn:Hn; [|discriminate].
     destruct p; try discriminate; inversion Hs; subst s'; clear Hs; counts Hn WExec;
       (destruct (pipe_done s) eqn:Epd; [exfalso; lia|]);
-      constructor; sf; intros; try lia;
-      destruct (errored s); try discriminate; lia.
+      (destruct (errored s) eqn:Eer; [exfalso; lia|]);
+      constructor; sf; intros; try lia; try discriminate.
   - (* exec_done *)
     unfold do_exec_done in Hs. destruct (nth_error (workers s) w) as [p|] eqn:Hn; [|discriminate].
     destruct p; try discriminate.
@@ -221,7 +223,7 @@ Theorem sched_owed_wake_is_served s :
     length tr <= 3 /\ Forall (is_worker_ev w) tr /\ (forall r', In (EExecDone w r') tr -> r' = r) /\
     run s tr = Some s' /\ (owed s' = false \/ completed s' = true).
 Proof.
-  intros R Ho Hc. destruct (inv_reachable _ R) as [A1 A2 A3 A4 A5 A6 A7 A8 A9].
+  intros R Ho Hc. destruct (inv_reachable _ R) as [A1 A2 A3 A4 A5 A6 A7 A8 A9 A10].
   pose proof (cnt_alive_split (workers s)) as SP.
   destruct (le_lt_dec 1 (cnt is_ready (workers s))) as [Hr|Hr].
   - destruct (cnt_pos_nth _ _ Hr) as (w & p & Hn & Hp).
@@ -278,7 +280,7 @@ Lemma completed_step s e s' :
   Inv s -> completed s = true -> step s e = Some s' ->
   completed s' = true /\ execs_after_done s' = execs_after_done s.
 Proof.
-  intros [A1 A2 A3 A4 A5 A6 A7 A8 A9] Hc Hs. specialize (A4 Hc).
+  intros [A1 A2 A3 A4 A5 A6 A7 A8 A9 A10] Hc Hs. specialize (A4 Hc).
   destruct e as [| | w | w r | w]; cbn [step] in Hs.
   - inversion Hs; subst. unfold do_wake. rewrite Hc. auto.
   - inversion Hs; subst. unfold do_cancel_set; sf. auto.
@@ -318,93 +320,39 @@ Qed.
 Theorem sched_done_never_reexecuted s : reachable s -> execs_after_done s = 0.
 Proof. intros R. apply (iA7 _ (inv_reachable _ R)). Qed.
 
-(* ---------- 4. a task that finished WITH AN ERROR is run again ---------- *)
-(* execute() returning Ready(Err) leaves `completed = false`; any later wake re-executes the
-   pipeline (whose stack is wherever pop_next left it, see ExecStackProofs.pipe_repoll_after_error_continues). *)
-Theorem sched_errored_task_reruns_refuted :
-  exists tr s, run init tr = Some s /\ execs_after_err s > 0.
-Proof.
-  exists [EWake; EBegin 0; EExecDone 0 XErr; EEnd 0; EWake; EBegin 1].
-  eexists. split; [vm_compute; reflexivity | vm_compute; lia].
-Qed.
-(* the wake may also have arrived DURING the failing execute(): the same worker loops *)
-Theorem sched_errored_task_reruns_same_worker_refuted :
-  exists tr s, run init tr = Some s /\ execs_after_err s > 0 /\ ~ In EWake (skipn 3 tr).
-Proof.
-  exists [EWake; EBegin 0; EWake; EExecDone 0 XErr; EEnd 0; EBegin 0].
-  eexists. split; [vm_compute; reflexivity | split; [vm_compute; lia|]].
-  cbn. intros [H|[H|[H|[]]]]; discriminate.
-Qed.
+(* ---------- 4. a task that finished WITH AN ERROR is never run again ---------- *)
+(* Since baf9ea120 execute() returns true for Ready(Err) as well, so the EEnd after the failing
+   execute sets `completed`.  (Previous machine: Ready(Err) left completed = false and the statement
+   was refuted by  wake, begin 0, exec_done 0 XErr, end 0, wake, begin 1  -- execs_after_err = 1 --
+   and, with the wake arriving during the failing execute, by
+   wake, begin 0, wake, exec_done 0 XErr, end 0, begin 0.) *)
+Theorem sched_errored_task_never_reruns s : reachable s -> execs_after_err s = 0.
+Proof. intros R. apply (iA9 _ (inv_reachable _ R)). Qed.
+(* the two scripts that re-executed the failed task on the previous machine are now either rejected
+   or harmless: the second wake is a no-op / the worker exits *)
+Example sched_errored_old_witnesses_now_fail :
+  accepts [EWake; EBegin 0; EExecDone 0 XErr; EEnd 0; EWake; EBegin 1] = false /\
+  accepts [EWake; EBegin 0; EWake; EExecDone 0 XErr; EEnd 0; EBegin 0] = false.
+Proof. split; reflexivity. Qed.
 
-Lemma nowake_step s e s' :
-  Inv s -> pending s = false -> cnt is_ready (workers s) = 0 -> cnt in_execute (workers s) = 0 ->
-  e <> EWake -> step s e = Some s' ->
-  pending s' = false /\ cnt is_ready (workers s') = 0 /\ cnt in_execute (workers s') = 0 /\
-  execs_after_err s' = execs_after_err s.
+(* once the worker that ran the failing execute() has left (no closure alive), the task is completed;
+   and the EEnd of the failing execute is what sets it *)
+Theorem sched_errored_implies_completed_at_end s :
+  reachable s -> errored s = true ->
+  (n_alive s = 0 -> completed s = true) /\
+  (forall w s', nth_error (workers s) w = Some (WGot XErr) -> step s (EEnd w) = Some s' -> completed s' = true).
 Proof.
-  intros I Hp Hr Hx Hne Hs.
-  destruct e as [| | w | w r | w]; cbn [step] in Hs.
-  - congruence.
-  - inversion Hs; subst. unfold do_cancel_set; sf. auto.
-  - unfold do_begin in Hs. destruct (nth_error (workers s) w) as [p|] eqn:Hn; [|discriminate].
-    exfalso. destruct p; try discriminate; pose proof (cnt_nth_pos is_ready _ _ _ Hn eq_refl); lia.
-  - unfold do_exec_done in Hs. destruct (nth_error (workers s) w) as [p|] eqn:Hn; [|discriminate].
-    exfalso. destruct p; try discriminate; pose proof (cnt_nth_pos in_execute _ _ _ Hn eq_refl); lia.
-  - unfold do_end in Hs. destruct (nth_error (workers s) w) as [p|] eqn:Hn; [|discriminate].
-    destruct p as [| |r| |]; try discriminate. rewrite Hp in Hs. inversion Hs; subst s'; clear Hs.
-    counts Hn WExited. sf. repeat split; try reflexivity; lia.
+  intros R He. destruct (inv_reachable _ R) as [A1 A2 A3 A4 A5 A6 A7 A8 A9 A10].
+  pose proof (cnt_alive_split (workers s)) as SP. split.
+  - rewrite n_alive_cnt. intros Z. destruct (A10 He) as [C|C]; [exact C | lia].
+  - intros w s' Hn Hs. cbn [step] in Hs. unfold do_end in Hs. rewrite Hn in Hs.
+    destruct (pending s); inversion Hs; subst; reflexivity.
 Qed.
-
-(* FULL statement wanted: reachable s -> execs_after_err s = 0.  Refuted above.  What holds: if no
-   wake was accepted while the failing execute() ran (pending = false when it returns) and no
-   wake arrives afterwards, the task is not executed again. *)
-Theorem sched_errored_task_no_rerun_partial tr1 w tr2 s1 s :
-  run init tr1 = Some s1 -> errored s1 = false -> pending s1 = false ->
-  Forall (fun e => e <> EWake) tr2 ->
-  run s1 (EExecDone w XErr :: tr2) = Some s ->
-  errored s = true /\ execs_after_err s = 0.
+Example sched_errored_implies_completed_at_end_hyps :
+  exists s, reachable s /\ errored s = true /\ nth_error (workers s) 0 = Some (WGot XErr).
 Proof.
-  intros R1 He Hp Hnw H.
-  assert (Rs1 : reachable s1) by (exists tr1; exact R1).
-  pose proof (inv_reachable _ Rs1) as I1.
-  cbn [run] in H. destruct (step s1 (EExecDone w XErr)) as [s2|] eqn:Es; [|discriminate].
-  assert (R2 : reachable s2) by (eapply reachable_step; [exact Rs1 | exact Es]).
-  assert (J2 : pending s2 = false /\ cnt is_ready (workers s2) = 0 /\ cnt in_execute (workers s2) = 0 /\
-               execs_after_err s2 = 0 /\ errored s2 = true).
-  { cbn [step] in Es. unfold do_exec_done in Es.
-    destruct (nth_error (workers s1) w) as [p|] eqn:Hn; [|discriminate].
-    destruct p; try discriminate.
-    destruct (pipe_done s1 && negb true); [discriminate|].
-    inversion Es; subst s2; clear Es. sf. counts Hn (WGot XErr).
-    pose proof (cnt_alive_split (workers s1)). destruct I1 as [A1 A2 A3 A4 A5 A6 A7 A8 A9].
-    specialize (A9 He). repeat split; try assumption; try lia. }
-  clear Es He Hp I1. revert s2 R2 J2 H.
-  induction Hnw as [|e tr2 Hne Hnw IH]; intros s2 R2 (P & Rd & X & EA & ER) H; cbn [run] in H.
-  - inversion H; subst. auto.
-  - destruct (step s2 e) as [s3|] eqn:Es; [|discriminate].
-    destruct (nowake_step _ _ _ (inv_reachable _ R2) P Rd X Hne Es) as (P3 & R3 & X3 & E3).
-    assert (ER3 : errored s3 = true).
-    { destruct e as [| | w' | w' r' | w']; cbn [step] in Es.
-      - congruence.
-      - inversion Es; subst; exact ER.
-      - unfold do_begin in Es. destruct (nth_error (workers s2) w') as [[| | | |]|]; try discriminate;
-          inversion Es; subst; exact ER.
-      - unfold do_exec_done in Es. destruct (nth_error (workers s2) w') as [[| | | |]|]; try discriminate.
-        destruct (pipe_done s2 && _); [discriminate|]. inversion Es; subst; sf. destruct r'; auto.
-      - unfold do_end in Es. destruct (nth_error (workers s2) w') as [[| | | |]|]; try discriminate.
-        destruct (pending s2); inversion Es; subst; exact ER. }
-    apply (IH s3).
-    + eapply reachable_step; [exact R2 | exact Es].
-    + repeat split; try assumption. congruence.
-    + exact H.
-Qed.
-Example sched_errored_task_no_rerun_partial_hyps :
-  exists tr1 w tr2 s1 s, run init tr1 = Some s1 /\ errored s1 = false /\ pending s1 = false /\
-    Forall (fun e => e <> EWake) tr2 /\ run s1 (EExecDone w XErr :: tr2) = Some s.
-Proof.
-  exists [EWake; EBegin 0], 0, [EEnd 0; ECancelSet]. eexists. eexists.
-  split; [reflexivity|]. split; [reflexivity|]. split; [reflexivity|].
-  split; [repeat constructor; discriminate | vm_compute; reflexivity].
+  exists (match run init [EWake; EBegin 0; EWake; EExecDone 0 XErr] with Some s => s | None => init end).
+  split; [exists [EWake; EBegin 0; EWake; EExecDone 0 XErr]; reflexivity | split; reflexivity].
 Qed.
 
 (* ---------- 5. cancel ---------- *)
@@ -474,9 +422,8 @@ Print Assumptions sched_no_lost_wake.
 Print Assumptions sched_owed_wake_is_served.
 Print Assumptions sched_completed_never_runs.
 Print Assumptions sched_done_never_reexecuted.
-Print Assumptions sched_errored_task_reruns_refuted.
-Print Assumptions sched_errored_task_reruns_same_worker_refuted.
-Print Assumptions sched_errored_task_no_rerun_partial.
+Print Assumptions sched_errored_task_never_reruns.
+Print Assumptions sched_errored_implies_completed_at_end.
 Print Assumptions sched_cancel_reports.
 Print Assumptions sched_cancel_reports_trace.
 Print Assumptions sched_cancel_does_not_stop_worker.
